@@ -225,7 +225,7 @@ PROPS["C16"] = dict(
     timeout_quick=1500,
     subs=[
         dict(name="crash-points", test="TestCrashPoints", quick=1, thorough=1, shards=16),
-        dict(name="concurrent", test="TestConcurrent", quick=12, thorough=400, shards=8),
+        dict(name="concurrent", test="TestConcurrent", quick=25, thorough=600, shards=8),
     ],
     technique="fault enumeration: every (effect system call, N-th call) of a traced Cache.Fetch becomes a SIGKILL crash point via strace injection, single and double crashes and registry body faults, each followed by a clean fetch checked against the generator's ground truth; rapid-generated concurrent multi-process histories",
     level_text="fault enumeration: for each module shape the worker's fetch is traced once, then re-run once per crash point with SIGKILL delivered on entry to that system call (between two file-system effects), for openat/mkdirat/rename*/unlink*/write/fchmod*/flock; after every interrupted history FetchFromCache must be not-found or complete, cached zip/mod files absent or identical to the registry's, and a clean fetch must return exactly the module's files; registry faults (error mid-body, short body) must surface as errors; 2-4 processes x 1-4 goroutines fetch concurrently with registry latency, optionally with one process killed.",
